@@ -44,6 +44,16 @@ type World struct {
 	NodeSince map[string]time.Duration
 	// Faulty reports whether this run injects faults at all.
 	Faulty bool
+	// Stopped holds the names of nodes whose scheduler was stopped for good.
+	Stopped map[string]bool
+	// Reloading holds the names of nodes whose scheduler is being replaced
+	// right now (between the Reload call and its return).
+	Reloading map[string]bool
+	// OnReloaded, if set, is called when a Reload has returned (monitors drop
+	// what they know about the old scheduler of that node).
+	OnReloaded func(node *simrt.Node)
+
+	onEvent func(node *simrt.Node, origin bool, ev *networkevent.Event) // the scenario's own triggers
 }
 
 // Hooks are the attachment points of a harness.
@@ -60,10 +70,14 @@ type Hooks struct {
 }
 
 func (w *World) hookPeer(node *simrt.Node, origin bool, ev *cluster.Events, h Hooks) {
-	if h.OnEvent == nil {
-		return
+	ev.Hook = func(e *networkevent.Event) {
+		if w.onEvent != nil {
+			w.onEvent(node, origin, e)
+		}
+		if h.OnEvent != nil {
+			h.OnEvent(w, node, origin, e)
+		}
 	}
-	ev.Hook = func(e *networkevent.Event) { h.OnEvent(w, node, origin, e) }
 }
 
 // IPOf strips the port of an address.
@@ -81,7 +95,7 @@ func Churn(s *simrt.Sim, tier string, h Hooks) {
 	sc := cluster.DefaultSched()
 	sc.LeecherTTI = time.Duration(8+tp.Draw(40)) * time.Second
 	sc.SeederTTI = time.Duration(8+tp.Draw(60)) * time.Second
-	sc.ConnTTI = time.Duration(3+tp.Draw(20)) * time.Second
+	sc.ConnTTI = time.Duration(3+tp.Draw(58)) * time.Second
 	sc.ConnTTL = time.Duration(20+tp.Draw(100)) * time.Second
 	sc.PreemptionInterval = time.Duration(1+tp.Draw(8)) * time.Second
 	sc.EmitStatsInterval = time.Minute
@@ -94,7 +108,7 @@ func Churn(s *simrt.Sim, tier string, h Hooks) {
 	p := cluster.Params{PieceLength: int64(512 << tp.Draw(4)), Sched: sc,
 		AnnounceInterval: time.Duration(1+tp.Draw(4)) * time.Second, PeerHandoutLimit: 1 + tp.Draw(5)}
 	c := cluster.New(s, p)
-	w := &World{S: s, C: c, P: p, PeerOfIP: map[string]string{}, NodeSince: map[string]time.Duration{}}
+	w := &World{S: s, C: c, P: p, PeerOfIP: map[string]string{}, NodeSince: map[string]time.Duration{}, Stopped: map[string]bool{}, Reloading: map[string]bool{}}
 	w.Wire = wire.Attach(s, c.NW)
 	w.Faulty = tp.Chance(750)
 	if h.Setup != nil {
@@ -111,7 +125,7 @@ func Churn(s *simrt.Sim, tier string, h Hooks) {
 	nBlobs := 1 + tp.Draw(3)
 	for i := 0; i < nBlobs; i++ {
 		n := 1 + tp.Draw(10<<10)
-		if thorough && tp.Chance(300) {
+		if tp.Chance(300) {
 			n = 1 + tp.Draw(48<<10)
 		}
 		b := kit.Bytes(s, n)
@@ -145,8 +159,10 @@ func Churn(s *simrt.Sim, tier string, h Hooks) {
 	if w.Faulty && tp.Chance(300) {
 		c.HN.FaultFn = simhttp.RandomFaults(s, simhttp.Rates{Refuse: 30, ResetBefore: 30, ResetAfter: 30, Status: 40, Delay: 100})
 	}
-	if w.Faulty && tp.Chance(300) {
-		c.NW.MaxLatency = time.Duration(tp.Draw(60)) * time.Millisecond
+	if tp.Chance(500) {
+		// slow links: downloads span several announce rounds, so peers dial each
+		// other while they already hold conns (neighbour lists are not empty)
+		c.NW.MaxLatency = time.Duration(5+tp.Draw(200)) * time.Millisecond
 		c.NW.ChunkPm = tp.Draw(300)
 	}
 	if w.Faulty && tp.Chance(300) {
@@ -174,6 +190,47 @@ func Churn(s *simrt.Sim, tier string, h Hooks) {
 			for k := 0; k < nOps; k++ {
 				simrt.Sleep(time.Duration(tp.Draw(6000)) * time.Millisecond)
 				download(ai, tp.Draw(nBlobs))
+			}
+		})
+	}
+	// removal (or nothing) exactly when an agent receives the last piece of a
+	// blob, so that it races with the dispatcher's asynchronous completion notice
+	if tp.Chance(500) {
+		pieces := map[string]int{}
+		digestOf := map[string]core.Digest{}
+		for i, b := range w.Blobs {
+			pieces[w.InfoHash[i].String()] = int((int64(len(b)) + p.PieceLength - 1) / p.PieceLength)
+			digestOf[w.InfoHash[i].String()] = w.Digests[i]
+		}
+		seen := map[string]int{}
+		trigger := make(chan func(), 64)
+		w.onEvent = func(node *simrt.Node, origin bool, ev *networkevent.Event) {
+			if origin || ev.Name != networkevent.ReceivePiece {
+				return
+			}
+			k := node.Name + "/" + ev.Torrent
+			seen[k]++
+			if seen[k] != pieces[ev.Torrent] {
+				return
+			}
+			seen[k] = 0
+			for _, a := range cur {
+				if a.Node == node {
+					a, d := a, digestOf[ev.Torrent]
+					select {
+					case trigger <- func() { s.GoNode(a.Node, "remove", func() { a.Sched.RemoveTorrent(d) }) }:
+					default:
+					}
+				}
+			}
+		}
+		simrt.Go(func() {
+			for {
+				fn := simrt.Recv(trigger)
+				if tp.Chance(600) {
+					s.Probe("churn_removal_at_last_piece")
+					fn()
+				}
 			}
 		})
 	}
@@ -222,8 +279,18 @@ func Churn(s *simrt.Sim, tier string, h Hooks) {
 		case 5: // scheduler reload (new scheduler object, same process)
 			s.Fault("scheduler_reload")
 			s.Logf("Reload agent%d", ai+1)
-			w.NodeSince[a.Node.Name] = s.Now()
-			s.GoNode(a.Node, "reload", func() { a.Sched.Reload(sc) })
+			if w.Stopped[a.Node.Name] || w.Reloading[a.Node.Name] {
+				break
+			}
+			w.Reloading[a.Node.Name] = true
+			s.GoNode(a.Node, "reload", func() {
+				a.Sched.Reload(sc)
+				w.NodeSince[a.Node.Name] = s.Now()
+				delete(w.Reloading, a.Node.Name)
+				if w.OnReloaded != nil {
+					w.OnReloaded(a.Node)
+				}
+			})
 		case 6: // crash and restart on the same directories
 			s.Fault("crash")
 			s.Logf("crash+restart agent%d", ai+1)
@@ -239,6 +306,7 @@ func Churn(s *simrt.Sim, tier string, h Hooks) {
 		case 7: // graceful stop (the agent stays down)
 			s.Fault("scheduler_stop")
 			s.Logf("Stop agent%d", ai+1)
+			w.Stopped[a.Node.Name] = true
 			s.GoNode(a.Node, "stop", func() { a.Sched.Stop() })
 		case 8: // one more download elsewhere
 			bi := tp.Draw(nBlobs)
@@ -269,6 +337,27 @@ func Churn(s *simrt.Sim, tier string, h Hooks) {
 		s.Probe("churn_clients_still_busy_at_end")
 	}
 	simrt.Sleep(time.Duration(tp.Draw(int((sc.SeederTTI+2*sc.PreemptionInterval)/time.Second)+1)) * time.Second)
+	// a late joiner: a fresh agent arrives when everybody else is done, idle or
+	// already timed out, and pulls one or two blobs from whoever the tracker
+	// still lists
+	if tp.Chance(500) {
+		a := startAgent(nAgents + 1)
+		cur = append(cur, a)
+		n := 1 + tp.Draw(2)
+		ai := nAgents
+		client(a.Node, func() {
+			for k := 0; k < n; k++ {
+				download(ai, tp.Draw(nBlobs))
+				simrt.Sleep(time.Duration(tp.Draw(4000)) * time.Millisecond)
+			}
+		})
+		dl := s.Now() + 3*(sc.LeecherTTI+60*time.Second)
+		for s.Now() < dl && busy[a.Node] > 0 {
+			simrt.Sleep(time.Second)
+		}
+		simrt.Sleep(time.Duration(tp.Draw(20)) * time.Second)
+		s.Probe("churn_late_joiner")
+	}
 	if h.End != nil {
 		h.End(w)
 	}
